@@ -75,7 +75,7 @@ theorem C06_no_release_confirm_without_response (sched : List PStep) :
 /-! ### provider-level agreement -/
 
 /-- **Provider-level agreement.**  For every schedule of the product model in which both local users
-are synchronously admissible (`Pair.runOk`: `Dul.stepOk` for every `.r st` / `.a st` step — a
+are synchronously admissible (`Pair.runOk`: `Dul.stepOkSync` for every `.r st` / `.a st` step — a
 primitive is issued only at a quiescent point of its reactor and only if PS3.8 defines its event for
 the provider's current state, ARTIM expires only at a quiescent point) and no send failure is
 injected (`breakConn`): if both reactors have ended in an orderly way (kill flag set, thread not
